@@ -99,10 +99,31 @@ def make_pool(pool_seed: int, sizes=("small", "small", "medium", "medium", "larg
                 docs.append(d)
     for name, d in rng.sample(ssb.handbuilt(), 2):
         docs.append(d)
-    # a multi-file project on the VFS
+    # siblings: same ops / sizes, other jump targets (what a weakly keyed memo would confuse with the original)
+    for d in list(docs[:2]):
+        sib = ssb.sibling(d, rng)
+        if sib is not None:
+            docs.append(sib)
+    # a multi-file project on the VFS, with several scripts at different directory depths that import the same
+    # macro files (a result cached for one script must not be handed to another)
     lib = macrolib.gen_lib(rng)
-    w = macrolib.gen_world(lib, rng)
+    w = macrolib.gen_world(lib, rng, {"files": rng.randint(2, 5)})
     texts.append({"kind": "exps-imports", "src": None, "file": w.main, "lookup": w.lookup})
+    main_real = w.vfs._resolve(w.main)[0]
+    main_imports = w.files[list(w.files)[0]]["imports"]
+    main_macros = w.files[list(w.files)[0]]["macros"]
+    import posixpath
+
+    for alt in rng.sample(["/proj/SCRIPT/deep/er/alt.exps", "/proj/alt_top.exps", "/opt/elsewhere/x/alt.exps", "/proj/macros/alt_in_macros.exps"], 2):
+        imps = []
+        for st, text, tgt in main_imports:
+            if st == "rel":
+                r = posixpath.relpath(tgt, posixpath.dirname(alt))
+                imps.append(r if r.startswith("..") else "./" + r)
+            else:
+                imps.append(text)
+        w.vfs.write(alt, macrolib.render_file(lib, main_macros, imps, w.variant_of, True))
+        texts.append({"kind": "exps-imports", "src": None, "file": alt, "lookup": w.lookup})
     for t in rng.sample(INVALID_TEXTS, 2):
         texts.append({"kind": "invalid", "src": t, "file": "/proj/SCRIPT/bad.exps"})
     vfs = w.vfs
